@@ -735,10 +735,11 @@ def run(tier, seed, replay=None):
         R.notes.append("coverage run produced no data")
     # the interpreted run must agree with the compiled one (same case list)
     nojit_diff = 0
+    pidx = {id(c): i for i, c in enumerate(pairs)}
     for c, r in zip(cov_cases, cres):
-        if c.get("kind") != "pair" or r is None or "exc" in r:
+        if c.get("kind") != "pair" or r is None or "exc" in r or id(c) not in pidx:
             continue
-        j = pres[pairs.index(c)]
+        j = pres[pidx[id(c)]]
         if j is None or "exc" in j:
             continue
         for o in ("o12", "o21"):
